@@ -70,10 +70,16 @@ def empty_of(kind):
     return 0 if kind in ("char", "short", "three", "int") else ""
 
 
-def chunks(shapes, L, surplus_kinds, via_slice=False):
+def chunks(shapes, L, surplus_kinds, via_slice=False, header=False):
     """shapes: tuple of chunks, each a tuple of field kinds.  For every chunk but the last the read plan
     (prefix length p, number of surplus reads s) is symbolic; the last chunk is read in full."""
     w = EoWriter()
+    if header:
+        # an unsanitised header ahead of the chunked part, as generated serializers write it; its text is free to
+        # coincide with a string of the chunks
+        hs = sym_str("h", L)
+        w.add_char(L)
+        w.add_string(hs)
     w.string_sanitization_mode = True
     vals = []
     ci = 0
@@ -91,6 +97,10 @@ def chunks(shapes, L, surplus_kinds, via_slice=False):
         ci += 1
     data = w.to_bytearray()
     r = EoReader(data)
+    if header:
+        check(r.get_char() == L, "header length")
+        r.get_fixed_string(L)
+        r = r.slice()
     r.chunked_reading_mode = True
     ci = 0
     nchunks = len(shapes)
@@ -120,7 +130,7 @@ def chunks(shapes, L, surplus_kinds, via_slice=False):
                 r.chunked_reading_mode = True
         ci += 1
     check(r.remaining == 0, "last chunk consumed exactly")
-    if not via_slice:
+    if not via_slice and not header:
         check(r.position == len(data), "reader at the end of the data")
     observe("data", data)
 
